@@ -54,7 +54,7 @@ use vls_protocol_signer::util::commitment_type_to_channel_type;
 pub const VERSIONS: [u32; 3] = [4, 5, 6];
 const SIGNER_ID: [u8; 16] = [3u8; 16];
 
-type Reply = Box<dyn SerBolt>;
+pub type Reply = Box<dyn SerBolt>;
 
 /// One request to a handler: refusal and panic are told apart as at API level.
 fn pcall(f: impl FnOnce() -> Result<Reply, HError>) -> Out<Reply> {
@@ -475,7 +475,7 @@ impl World {
 // ---------------------------------------------------------------------------------------------
 // message builders
 
-fn htlcs_msg(c: &Content) -> Array<model::Htlc> {
+pub fn htlcs_msg(c: &Content) -> Array<model::Htlc> {
     // the handler reads side LOCAL as offered by the holder and REMOTE as received
     let mut v = vec![];
     for (list, side) in [(&c.offered, model::Htlc::LOCAL), (&c.received, model::Htlc::REMOTE)] {
@@ -484,6 +484,27 @@ fn htlcs_msg(c: &Content) -> Array<model::Htlc> {
         }
     }
     Array(v)
+}
+
+/// SignRemoteCommitmentTx2 for counterparty commitment `n` with the given content (holder's view).
+pub fn sign_remote2_msg(point: &PublicKey, n: u64, c: &Content) -> Message {
+    Message::SignRemoteCommitmentTx2(msgs::SignRemoteCommitmentTx2 {
+        remote_per_commitment_point: pk(point),
+        commitment_number: n,
+        feerate: c.feerate,
+        to_local_value_sat: c.to_holder,
+        to_remote_value_sat: c.to_cp,
+        htlcs: htlcs_msg(c),
+    })
+}
+
+/// Ok/Err/Panic of a request whose reply content does not matter.
+pub fn unit(r: Out<Reply>) -> Out<()> {
+    match r {
+        Out::Ok(_) => Out::Ok(()),
+        Out::Err(e) => Out::Err(e),
+        Out::Panic(p) => Out::Panic(p),
+    }
 }
 
 /// PSBT of a commitment transaction carrying the output witscripts, the shape
